@@ -3,6 +3,7 @@ package main
 import (
 	"go/token"
 	"go/types"
+	"strings"
 
 	"golang.org/x/tools/go/ssa"
 )
@@ -507,4 +508,42 @@ func (c *Ctx) pathsCarry(target *ssa.BasicBlock, alts []Alt, seen map[*ssa.Basic
 		}
 	}
 	return false
+}
+
+// allPathsPass: every path from fn's entry to a return executes an
+// instruction satisfying pred. On failure a description of one offending
+// path (block indices) is returned.
+func allPathsPass(fn *ssa.Function, pred func(ssa.Instruction) bool) (bool, string) {
+	if fn == nil || len(fn.Blocks) == 0 {
+		return false, "no body"
+	}
+	seen := map[*ssa.BasicBlock]bool{}
+	var bad []string
+	var rec func(b *ssa.BasicBlock, path []string) bool
+	rec = func(b *ssa.BasicBlock, path []string) bool {
+		if seen[b] {
+			return true
+		}
+		seen[b] = true
+		path = append(path, "block "+itoa(b.Index))
+		for _, in := range b.Instrs {
+			if pred(in) {
+				return true
+			}
+			if _, isRet := in.(*ssa.Return); isRet {
+				bad = path
+				return false
+			}
+		}
+		for _, s := range b.Succs {
+			if !rec(s, path) {
+				return false
+			}
+		}
+		return true
+	}
+	if rec(fn.Blocks[0], nil) {
+		return true, ""
+	}
+	return false, strings.Join(bad, " → ") + " → return"
 }
